@@ -92,6 +92,40 @@ serde_cases! {
     a_server_login, r_server_login : ServerLogin<M>, serde_len = 24, native_len = 24;
 }
 
+/// persisted types through a format whose sequences may end early: every prefix of a valid serde encoding that is cut at
+/// *any* position — in particular at a field boundary — is refused (no field is silently defaulted)
+macro_rules! short_cases {
+    ($( $name:ident : $ty:ty, serde_len = $sl:expr; )*) => { $(
+        fn $name(full: &[u8]) {
+            let mut cut = 0;
+            while cut < $sl {
+                match from_flat_short::<$ty>(&full[..cut]) {
+                    Ok((x, _)) => {
+                        check!(false, "a serde record with missing trailing fields is refused, not completed with defaults");
+                        core::mem::forget(x);
+                    }
+                    Err(_) => {}
+                }
+                cut += 1;
+            }
+            match from_flat_short::<$ty>(&full[..$sl]) {
+                Ok((x, used)) => {
+                    check!(used == $sl, "complete record: everything consumed");
+                    cover!(true, "complete ok");
+                    core::mem::forget(x);
+                }
+                Err(_) => {}
+            }
+        }
+    )* };
+}
+short_cases! {
+    sh_setup : ServerSetup<M>, serde_len = 14;
+    sh_client_reg : ClientRegistration<M>, serde_len = 2;
+    sh_server_login : ServerLogin<M>, serde_len = 24;
+    sh_reg_resp : RegistrationResponse<M>, serde_len = 3;
+}
+
 /// accept-direction on the exact length and one byte short
 fn acc<const N: usize>(f: fn(&[u8])) {
     let buf = any_bytes::<N>();
@@ -141,6 +175,10 @@ harnesses! {
         let skb = any_bytes::<1>();
         keys_accept(&pkb, &skb);
     }
+    fn ds_short_setup [unwind = 18] { rel::<14>(sh_setup); }
+    fn ds_short_client_reg [unwind = 8] { rel::<2>(sh_client_reg); }
+    fn ds_short_server_login [unwind = 30] { rel::<24>(sh_server_login); }
+    fn ds_short_reg_resp [unwind = 8] { rel::<3>(sh_reg_resp); }
     fn ds_reg_req [unwind = 8] { acc::<1>(a_reg_req); }
     fn ds_reg_resp [unwind = 8] { acc::<3>(a_reg_resp); }
     fn ds_reg_upload [unwind = 58] { acc::<54>(a_reg_upload); }
